@@ -9309,7 +9309,11 @@ class SVG(Group):
                             values[SVG_ATTR_TRANSFORM] += " " + viewport_transform
                         else:
                             values[SVG_ATTR_TRANSFORM] = viewport_transform
-                        values["viewport_transform"] = values[SVG_ATTR_TRANSFORM]
+                        # Viewport transforms only (enclosing ones first): what a non-scaling stroke is scaled by.
+                        if values.get("viewport_transform"):
+                            values["viewport_transform"] += " " + viewport_transform
+                        else:
+                            values["viewport_transform"] = viewport_transform
                         width, height = s.viewbox.width, s.viewbox.height
                     elif context is not None and (s.x != 0 or s.y != 0):
                         # A nested svg without a viewBox still places its content at (x, y).
@@ -9321,7 +9325,11 @@ class SVG(Group):
                             values[SVG_ATTR_TRANSFORM] += " " + viewport_transform
                         else:
                             values[SVG_ATTR_TRANSFORM] = viewport_transform
-                        values["viewport_transform"] = values[SVG_ATTR_TRANSFORM]
+                        # Viewport transforms only (enclosing ones first): what a non-scaling stroke is scaled by.
+                        if values.get("viewport_transform"):
+                            values["viewport_transform"] += " " + viewport_transform
+                        else:
+                            values["viewport_transform"] = viewport_transform
                     if context is None:
                         stack[-1] = (context, values, width, height)
                     if context is not None:
